@@ -41,10 +41,11 @@ Theorem C04_ops_denote_size : forall S ck p, void_variants_zero S = true -> fora
 Proof. exact den_size_presc. Qed.
 Print Assumptions C04_ops_denote_size.
 
-(* the regenerated size rows of the corpus are the prescribed ones (table lemma) and therefore denote the model *)
+(* the regenerated size rows of the corpus are the prescribed ones (table lemma) and, as lowered, denote the model *)
 Theorem C04_emitted_size_ops :
-  (ops_match corpus_schema false emitted_plain /\ ops_match corpus_schema true emitted_keep) /\
-  forall p t v, no_uu v = true ->
-    den_size (map norm_row emitted_plain) p (presc_vop corpus_schema t) v = size_ty corpus_schema p t v.
+  (ops_match schema_plain false emitted_plain /\ ops_match schema_keep true emitted_keep) /\
+  forall p t v,
+    (no_uu v = true -> den_size emitted_plain p (presc_vop schema_plain t) v = size_ty schema_plain p t v) /\
+    den_size emitted_keep p (presc_vop schema_keep t) v = size_ty schema_keep p t v.
 Proof. exact (conj (conj emitted_plain_match emitted_keep_match) emitted_size_is_model). Qed.
 Print Assumptions C04_emitted_size_ops.
